@@ -1,7 +1,7 @@
 (* C03/Properties.v -- pinned statements of property C03:
    N-Triples / N-Quads serialisation round-trips every dataset exactly. *)
 From Sophia.Common Require Import Prelude Term.
-From Sophia.C03 Require Import Model Proofs.
+From Sophia.C03 Require Import Model Proofs Adapters AdaptersProofs.
 
 (* (0) the Rust loop of quoted_string (scan to the first special byte, copy the prefix, write the
    escape, recurse on the remainder) is byte-wise escaping of LF, CR, double quote, backslash *)
@@ -151,3 +151,112 @@ Print Assumptions gen_statement_is_one_line.
 Print Assumptions gen_one_line_per_quad.
 Print Assumptions ex_gen_bytes.
 Print Assumptions ex_calls_ok.
+
+(* ============================================================================================ *)
+(* (6) between the serialiser and the target: io::Write with short writes, interruptions, budgets *)
+(* whatever the way the text is cut into buffers and whatever the caps / interruptions of a target
+   that never gives up, everything arrives and the call succeeds *)
+Check (short_writes_lose_nothing : forall (ans : list wout) (bufs : list (list N)),
+  patient ans = true ->
+  received (write_bufs ans None bufs []) = concat bufs /\ verdict (write_bufs ans None bufs []) = true).
+Check (serialise_any_chunking : forall (ch : chunking) (qs : list quad) (ans : list wout),
+  faithful_on ch qs -> patient ans = true ->
+  received (write_bufs ans None (flat_map ch qs) []) = nq_write qs
+  /\ verdict (write_bufs ans None (flat_map ch qs) []) = true).
+Check (blocks_concat : forall (sz : nat) (txt : list N), concat (blocks sz txt) = txt).
+Check (serialise_in_blocks : forall (sz : nat) (qs : list quad) (ans : list wout), patient ans = true ->
+  received (write_bufs ans None (blocks sz (nq_write qs)) []) = nq_write qs
+  /\ verdict (write_bufs ans None (blocks sz (nq_write qs)) []) = true).
+(* a target with a total budget of b bytes receives exactly the first b bytes; success iff all fitted *)
+Check (budget_cuts_a_prefix : forall (ans : list wout) (b : nat) (bufs : list (list N)),
+  patient ans = true ->
+  received (write_bufs ans (Some b) bufs []) = firstn b (concat bufs)
+  /\ verdict (write_bufs ans (Some b) bufs []) = (length (concat bufs) <=? b)%nat).
+(* no hypothesis at all: a prefix arrives, and success means everything arrived *)
+Check (received_is_a_prefix : forall (bufs : list (list N)) (ans : list wout) (bud : option nat) (got : list N),
+  exists n, received (write_bufs ans bud bufs got) = got ++ firstn n (concat bufs)
+    /\ (verdict (write_bufs ans bud bufs got) = true
+        -> received (write_bufs ans bud bufs got) = got ++ concat bufs)).
+Check (sink_bytes_ok_spec : forall (nq : bool) (qs : list quad) (bud : option N) (recv : list N) (ok : bool),
+  sink_bytes_ok nq qs bud recv ok = true ->
+  recv = firstn (cap (obudget bud) (length (model_text nq qs))) (model_text nq qs)
+  /\ ok = Nat.eqb (cap (obudget bud) (length (model_text nq qs))) (length (model_text nq qs))).
+
+(* (7) between the parser and the reader: Source adapters and the iterators of map_* / filter_map_* *)
+Check (@for_each_filter : forall (A : Type) (p : A -> bool) (rs : list (round A)),
+  for_each (filter_rounds p rs) = (filter p (fst (for_each rs)), snd (for_each rs))).
+Check (@for_each_map : forall (A B : Type) (g : A -> B) (rs : list (round A)),
+  for_each (map_rounds g rs) = (map g (fst (for_each rs)), snd (for_each rs))).
+Check (@iter_collect_is_for_each : forall (A B : Type) (f : A -> option B) (rs : list (round A)),
+  settled rs = true ->
+  iter_collect f rs = (filter_map f (fst (for_each rs)), snd (for_each rs))).
+Check (@iter_collect_map : forall (A B : Type) (g : A -> B) (rs : list (round A)),
+  settled rs = true ->
+  iter_collect (fun x => Some (g x)) rs = (map g (fst (for_each rs)), snd (for_each rs))).
+
+(* ---- non-vacuity ---- *)
+(* ex_doc through a target that takes 1, then is interrupted, then 2, 3, 1, ... bytes per call,
+   statement by statement and byte by byte *)
+Example ex_trickle :
+  let ans := [Take 1; Intr; Take 2; Take 3; Intr; Intr; Take 1; Take 7; Take 1; Take 1000] in
+  patient ans = true
+  /\ received (write_bufs ans None (flat_map per_statement ex_doc) []) = nq_write ex_doc
+  /\ received (write_bufs ans None (flat_map per_byte ex_doc) []) = nq_write ex_doc
+  /\ received (write_bufs ans None (blocks 40 (nq_write ex_doc)) []) = nq_write ex_doc.
+Proof. vm_compute. repeat split; reflexivity. Qed.
+(* a budget of 50 bytes *)
+Example ex_budget :
+  sink_bytes_ok true ex_doc (Some 50) (firstn 50 (nq_write ex_doc)) false = true
+  /\ sink_ok true ex_doc (Some 50) 50 false = true
+  /\ sink_ok true ex_doc (Some 50) 50 true = false
+  /\ sink_ok true ex_doc None (N.of_nat (length (nq_write ex_doc))) true = true
+  /\ sink_ok false ex_doc (Some 100000) (N.of_nat (length (nt_write (nt_of ex_doc)))) true = true.
+Proof. vm_compute. repeat split; reflexivity. Qed.
+(* the hypothesis is needed: a target that gives up, or answers Ok(0), gets a strict prefix -- and
+   the call fails *)
+Example impatient_refuted :
+  write_bufs [Take 2; Fail] None [[1; 2; 3]; [4]] [] = ([], None, [1; 2], false)
+  /\ write_bufs [Take 3; Take 0] None [[1; 2; 3]; [4]] [] = ([], None, [1; 2; 3], false).
+Proof. vm_compute. split; reflexivity. Qed.
+(* a hand-over that offers a block to `write` ONCE and ignores the count (instead of write_all) is
+   not this model: on a target taking 2 bytes per call it would deliver [1;2] of [1;2;3] and go on
+   with [4]; write_all delivers all four bytes *)
+Example ex_write_all_retries :
+  received (write_bufs [Take 2; Take 2; Take 2] None [[1; 2; 3]; [4]] []) = [1; 2; 3; 4].
+Proof. vm_compute. reflexivity. Qed.
+
+(* the call that delivers the last statement may itself answer Ok(false): the iterator still
+   hands that statement out; empty rounds (blank lines, comments) are skipped *)
+Example ex_iter_last_round :
+  iter_collect (fun x : N => Some x) [([1], More); ([], More); ([2; 3], More); ([4], Done)] = ([1; 2; 3; 4], true)
+  /\ iter_collect (fun x : N => Some x) [([1], More); ([2], More); ([], Done)] = ([1; 2], true)
+  /\ iter_collect (fun x : N => Some x) [([1], More); ([2], Broke); ([3], More)] = ([1; 2], false)
+  /\ iter_collect (keep 2) (number_rounds 0 [(1, More); (0, More); (2, More); (1, Done)]) = ([1; 3], true).
+Proof. vm_compute. repeat split; reflexivity. Qed.
+Example ex_traces :
+  iter_trace_ok 2 [(1, More); (0, More); (2, More); (1, Done)] [1; 3] true = true
+  /\ iter_trace_ok 0 [(1, More); (1, Done)] [0] true = false
+  /\ each_trace_ok 3 [(1, More); (0, More); (2, More); (1, Broke)] [1; 2] false = true
+  /\ trace_ok [(1, More); (0, More); (2, More); (0, Done)] 3 = true.
+Proof. vm_compute. repeat split; reflexivity. Qed.
+(* the hypothesis is needed: a source that delivers again after having answered Ok(false) *)
+Example unsettled_refuted :
+  let rs := [([1], Done); ([2], Done)] in
+  settled rs = false /\ fst (for_each rs) = [1] /\ fst (iter_collect (fun x : N => Some x) rs) = [1; 2].
+Proof. vm_compute. repeat split; reflexivity. Qed.
+
+Print Assumptions short_writes_lose_nothing.
+Print Assumptions serialise_any_chunking.
+Print Assumptions blocks_concat.
+Print Assumptions serialise_in_blocks.
+Print Assumptions budget_cuts_a_prefix.
+Print Assumptions received_is_a_prefix.
+Print Assumptions sink_bytes_ok_spec.
+Print Assumptions for_each_filter.
+Print Assumptions for_each_map.
+Print Assumptions iter_collect_is_for_each.
+Print Assumptions iter_collect_map.
+Print Assumptions ex_trickle.
+Print Assumptions ex_budget.
+Print Assumptions ex_iter_last_round.
+Print Assumptions ex_traces.
